@@ -23,4 +23,26 @@ PLAN = {
             {"name": "miri-seq", "flavour": "miri", "shards": 2, "shards_thorough": 8, "miriflags": IGN, "timeout": 900},
         ],
     },
+    "C05": {
+        "level": "exploration",
+        "rule": "an execution = prefill (0/1/62..66/127..129/200 values) + 2-8 role threads (pushers, data/data_with readers, clear_with "
+                "clearers, is_empty pollers) over one AtomicBucket<u64> of unique ids, every op stamped call/return from one counter; "
+                "the offline oracle applies the interval rules E1-E7 (DESIGN §3 C05) to the merged history plus a final quiescent clear. "
+                "gate leg: each of 11 hook windows x 4 intruding ops x 11 prefills forced deterministically; random leg: seeded holds at "
+                "all 17 bucket hook points. distinct = distinct (interleaving signature over hook events, history stamps); non-trivial = "
+                "contains a clear or snapshot concurrent with pushes.",
+        "assumptions": ["call/return stamps come from one SeqCst counter, so 'completed before' is sound w.r.t. real time",
+                        "crossbeam-epoch is trusted (it is a dependency, not repository code); Miri runs it under tree borrows"],
+        "legs": [
+            {"name": "seq", "flavour": "native", "shards": 2, "shards_thorough": 8},
+            {"name": "gate", "flavour": "native", "shards": 4, "shards_thorough": 16},
+            {"name": "random", "flavour": "native", "shards": 8, "shards_thorough": 16},
+            {"name": "stress", "flavour": "native", "shards": 1, "shards_thorough": 4},
+            {"name": "drops", "flavour": "native", "shards": 2, "shards_thorough": 8},
+            {"name": "asan", "flavour": "asan", "shards": 4, "shards_thorough": 16},
+            {"name": "asan-drops", "flavour": "asan", "shards": 2, "shards_thorough": 8},
+            {"name": "miri", "flavour": "miri", "shards": 10, "shards_thorough": 96, "miriflags": TB + " " + IGN, "timeout": 1200},
+            {"name": "miri-drops", "flavour": "miri", "shards": 4, "shards_thorough": 32, "miriflags": TB + " " + IGN, "timeout": 1200},
+        ],
+    },
 }
